@@ -35,9 +35,13 @@ type c18Shape struct {
 var c18Shapes = []c18Shape{
 	{name: "absent"},
 	{name: "one-url", locations: []string{c18Delta(0)}, ext: func() []byte { return pki.CDPValue([][]string{{"uri:" + c18Delta(0)}}) }},
-	{name: "two-urls", locations: []string{c18Delta(0), c18Delta(1)}, ext: func() []byte { return pki.CDPValue([][]string{{"uri:" + c18Delta(0)}, {"uri:" + c18Delta(1)}}) }},
-	{name: "three-urls(two in one point)", locations: []string{c18Delta(0), c18Delta(1), c18Delta(2)}, ext: func() []byte {
-		return pki.CDPValue([][]string{{"uri:" + c18Delta(0), "uri:" + c18Delta(1)}, {"uri:" + c18Delta(2)}})
+	// advertised order is deliberately not the lexical order of the URLs
+	{name: "two-urls", locations: []string{c18Delta(1), c18Delta(0)}, ext: func() []byte { return pki.CDPValue([][]string{{"uri:" + c18Delta(1)}, {"uri:" + c18Delta(0)}}) }},
+	{name: "three-urls(two in one point)", locations: []string{c18Delta(2), c18Delta(0), c18Delta(1)}, ext: func() []byte {
+		return pki.CDPValue([][]string{{"uri:" + c18Delta(2), "uri:" + c18Delta(0)}, {"uri:" + c18Delta(1)}})
+	}},
+	{name: "two-urls-one-repeated", locations: []string{c18Delta(1), c18Delta(1), c18Delta(0)}, ext: func() []byte {
+		return pki.CDPValue([][]string{{"uri:" + c18Delta(1)}, {"uri:" + c18Delta(1)}, {"uri:" + c18Delta(0)}})
 	}},
 	{name: "only-non-uri-names", ext: func() []byte { return pki.CDPValue([][]string{{"dns:crl.test"}}) }},
 	{name: "empty-sequence", ext: func() []byte { return []byte{0x30, 0x00} }},
@@ -138,9 +142,9 @@ type c18Scenario struct {
 
 func c18Scenarios(tier mc.Tier) []mc.Scenario {
 	var out []mc.Scenario
-	depth := 3
+	depth := 4
 	if tier == mc.Thorough {
-		depth = 4
+		depth = 5
 	}
 	for si := range c18Shapes {
 		sh := &c18Shapes[si]
@@ -167,7 +171,10 @@ func c18Scenarios(tier mc.Tier) []mc.Scenario {
 			}
 			d := depth
 			if tier == mc.Quick && (sh.malformed || sh.dontCare || !opt.cache) {
-				d = 2
+				d = 3
+			}
+			if tier == mc.Thorough && (sh.malformed || sh.dontCare || !opt.cache || len(sh.locations) > 2) {
+				d = 4
 			}
 			s := &c18Scenario{cache: opt.cache, discard: opt.discard, shape: sh, depth: d, events: events}
 			out = append(out, mc.Scenario{Name: fmt.Sprintf("C18-%s-cache%v-discard%v", sh.name, opt.cache, opt.discard), Bound: -1, Body: s.body,
@@ -181,9 +188,14 @@ func c18Scenarios(tier mc.Tier) []mc.Scenario {
 }
 
 type c18Bundle struct {
-	b         *corecrl.Bundle
-	effective bool
-	desc      string
+	b           *corecrl.Bundle
+	base, delta *x509.RevocationList // what the harness put there: the library must not modify a cached bundle in place
+	effective   bool
+	desc        string
+}
+
+func newC18Bundle(b *corecrl.Bundle, effective bool, desc string) *c18Bundle {
+	return &c18Bundle{b: b, base: b.BaseCRL, delta: b.DeltaCRL, effective: effective, desc: desc}
 }
 
 func (s *c18Scenario) body(c *mc.Ctx) {
@@ -259,7 +271,7 @@ func (s *c18Scenario) body(c *mc.Ctx) {
 				cacheOps[len(cacheOps)-1] = "set-fails"
 				return errors.New("netsim: cache write failed")
 			}
-			entry = &c18Bundle{b: b, effective: true, desc: "stored-by-fetch"}
+			entry = newC18Bundle(b, true, "stored-by-fetch")
 			return nil
 		}
 		f.Cache = cch
@@ -281,17 +293,17 @@ func (s *c18Scenario) body(c *mc.Ctx) {
 		case ev == "cache:=empty":
 			entry = nil
 		case ev == "cache:=fresh(old version)":
-			entry = &c18Bundle{b: &corecrl.Bundle{BaseCRL: w.stale("old-base-fresh")}, effective: true, desc: "old fresh base"}
+			entry = newC18Bundle(&corecrl.Bundle{BaseCRL: w.stale("old-base-fresh")}, true, "old fresh base")
 		case ev == "cache:=fresh-with-delta":
-			entry = &c18Bundle{b: &corecrl.Bundle{BaseCRL: w.stale("old-base-fresh"), DeltaCRL: w.stale("old-delta-fresh")}, effective: true, desc: "old fresh base+delta"}
+			entry = newC18Bundle(&corecrl.Bundle{BaseCRL: w.stale("old-base-fresh"), DeltaCRL: w.stale("old-delta-fresh")}, true, "old fresh base+delta")
 		case ev == "cache:=base-expired":
-			entry = &c18Bundle{b: &corecrl.Bundle{BaseCRL: w.stale("base-expired")}, effective: false, desc: "expired base"}
+			entry = newC18Bundle(&corecrl.Bundle{BaseCRL: w.stale("base-expired")}, false, "expired base")
 		case ev == "cache:=delta-expired":
-			entry = &c18Bundle{b: &corecrl.Bundle{BaseCRL: w.stale("old-base-fresh"), DeltaCRL: w.stale("delta-expired")}, effective: false, desc: "fresh base, expired delta"}
+			entry = newC18Bundle(&corecrl.Bundle{BaseCRL: w.stale("old-base-fresh"), DeltaCRL: w.stale("delta-expired")}, false, "fresh base, expired delta")
 		case ev == "cache:=both-expired":
-			entry = &c18Bundle{b: &corecrl.Bundle{BaseCRL: w.stale("base-expired"), DeltaCRL: w.stale("delta-expired")}, effective: false, desc: "expired base and delta"}
+			entry = newC18Bundle(&corecrl.Bundle{BaseCRL: w.stale("base-expired"), DeltaCRL: w.stale("delta-expired")}, false, "expired base and delta")
 		case ev == "cache:=base-without-nextupdate":
-			entry = &c18Bundle{b: &corecrl.Bundle{BaseCRL: w.stale("base-no-nextupdate")}, effective: false, desc: "base without nextUpdate"}
+			entry = newC18Bundle(&corecrl.Bundle{BaseCRL: w.stale("base-no-nextupdate")}, false, "base without nextUpdate")
 		case ev == "next-get-fails":
 			getFault = true
 		case ev == "next-set-fails":
@@ -336,12 +348,17 @@ func (s *c18Scenario) body(c *mc.Ctx) {
 					p = pred{outcome: "error", why: "malformed freshest-CRL extension", delta: -1}
 				case len(s.shape.locations) > 0:
 					got := -1
+					armed := map[int]bool{} // one-shot faults are consumed by the request that meets them
+					for k, v := range deltaFault {
+						armed[k] = v
+					}
 					for i, loc := range s.shape.locations {
 						if strings.HasPrefix(loc, "https://") {
 							continue
 						}
 						idx := int(loc[len(loc)-1] - '0')
-						if deltaFault[idx] {
+						if armed[idx] {
+							delete(armed, idx)
 							continue
 						}
 						if heavyDelta {
@@ -381,6 +398,10 @@ func (s *c18Scenario) body(c *mc.Ctx) {
 			sig := func(what string) string { return fmt.Sprintf("C18 %s [shape %s]", what, s.shape.name) }
 			if pan != nil {
 				c.Fail(sig("panic in Fetch"), "history %v: %v", hist, pan)
+				return
+			}
+			if prevEntry != nil && (prevEntry.b.BaseCRL != prevEntry.base || prevEntry.b.DeltaCRL != prevEntry.delta) {
+				c.Fail(sig("cached bundle modified in place by Fetch"), "history %v: the bundle object held by the cache (%s) was changed by the fetcher (delta now nil: %v)", hist, descOf(prevEntry), prevEntry.b.DeltaCRL == nil)
 				return
 			}
 			// ---- statement-level oracle (independent of the prediction) ----
@@ -501,7 +522,7 @@ func descOf(e *c18Bundle) string {
 func init() {
 	register(&mc.Check{
 		ID: "C18", Title: "The CRL fetcher never serves stale data and never hides a failed download", DesignRef: "DESIGN.md §4 C18",
-		Rule: fmt.Sprintf("Engine E3: every history up to depth 3 (quick) / 4 (thorough) over %d events {fetch, server publishes newer CRLs, cache entry := fresh / fresh with delta / base expired / delta expired / both expired / base without nextUpdate / empty, next cache Get fails, next cache Set fails, "+
+		Rule: fmt.Sprintf("Engine E3: every history up to depth 4 (quick) / 5 (thorough; 4 for the malformed, don't-care, cache-less and three-location configurations) over %d events {fetch, server publishes newer CRLs, cache entry := fresh / fresh with delta / base expired / delta expired / both expired / base without nextUpdate / empty, next cache Get fails, next cache Set fails, "+
 			"next base download fails (transport, 404, garbage), next delta download fails at location 0 / 1 / all} x {no cache, cache, cache + DiscardCacheError} x %d freshest-CRL shapes of the base CRL (absent, 1-3 URLs, non-URI names, empty sequence, https, malformed DER at three depths), real HTTPFetcher over a scripted transport and cache; "+
 			"each fetch is judged from the request and cache-operation log against the statement and against a reference model of the fetcher; 32 MiB bodies in a separate scenario.", len(c18Events), len(c18Shapes)),
 		Assumptions: []string{"a URI that shares a distribution-point name with a non-URI name is a don't-care (recorded)", "cached CRLs sit >= 24 h from the nextUpdate boundary"},
